@@ -42,6 +42,23 @@ def mentions_draw(name, rngp):
                               or (s[0] == "op" and s[1] == name and any(mentions(a, rngp) for a in s[2])))
 
 
+def per_coefficient_draw(ctx):
+    P = ctx.prog
+    f = ctx.anchor(CORE + "keys::generate_coefficients")
+    if f:
+        v = FnView.get(P, f)
+        rt = v.cx.local(0)
+        rw = [s for s in subterms(rt) if is_call(s, name="repeat_with")]
+        good = len(rw) == 1 and rw[0][2][0][0] == "closure" and rw[0][2][0][2] == (("arg", 2),)
+        if good:
+            cf = P.fns.get(rw[0][2][0][1])
+            ct = TermCx(P, cf).local(0) if cf else None
+            good = ct is not None and is_call(ct, name="random") and ct[2][0] == ("field", ("arg", 1), None, "0")
+        ctx.check(good and adaptor_inventory(f) == {"take": 1}, "DRAW-item", f.key, "one-draw-per-coefficient",
+                  "generate_coefficients must produce each coefficient by its own Field::random(rng) call inside the "
+                  "repeat_with closure (no draw hoisted out, no repetition of one sample)", f.loc)
+
+
 def run(ctx):
     ctx.decided = ("no call or cast in workspace library code reaches an entropy source other than a caller-supplied "
                    "CryptoRng (getrandom/rand/OsRng/time/HashMap RandomState/addresses): expected count 0, with a "
@@ -127,19 +144,9 @@ def run(ctx):
         if k not in seen_fns and DRAW_SITES[k]:
             ctx.violation("DRAW-site", k, "anchor-missing", "reviewed draw site %s not found" % k)
     # (iii) per-item draws inside the per-item construct
-    f = ctx.anchor(CORE + "keys::generate_coefficients")
-    if f:
-        v = FnView.get(P, f)
-        rt = v.cx.local(0)
-        rw = [s for s in subterms(rt) if is_call(s, name="repeat_with")]
-        good = len(rw) == 1 and rw[0][2][0][0] == "closure" and rw[0][2][0][2] == (("arg", 2),)
-        if good:
-            cf = P.fns.get(rw[0][2][0][1])
-            ct = TermCx(P, cf).local(0) if cf else None
-            good = ct is not None and is_call(ct, name="random") and ct[2][0] == ("field", ("arg", 1), None, "0")
-        ctx.check(good and adaptor_inventory(f) == {"take": 1}, "DRAW-item", f.key, "one-draw-per-coefficient",
-                  "generate_coefficients must produce each coefficient by its own Field::random(rng) call inside the "
-                  "repeat_with closure (no draw hoisted out, no repetition of one sample)", f.loc)
+    per_coefficient_draw(ctx)
+    from .c11 import repair_draw_count
+    repair_draw_count(ctx)
     f = ctx.anchor(CORE + "random_nonzero")
     if f:
         lr = loop_report(P, f)
